@@ -313,15 +313,49 @@ Fixpoint has_ignore_pattern (l : text) : bool :=
 
 Definition overlaps (a b : range) : bool := (fst a <? snd b) && (fst b <? snd a).
 
-Fixpoint has_ignore_from (start : Z) (ls : list text) (r : range) : bool :=
+(* core.strip_line_terminator(line) != line : the line ends with \n, \r\n or \r *)
+Definition terminated (l : text) : bool :=
+  match l with [] => false | _ => is_tok_nl (last l 0%N) end.
+
+(* does the range r touch the line l = [ls, le) ?  A non-empty range: Range.overlaps (`rng & Range(..)`).
+   An empty range (an insertion; repair 8992e08): anywhere from the first column of the line up to its
+   terminator, and at the very end of a line without terminator (the unterminated last line). *)
+Definition touches_line (r : range) (ls le : Z) (l : text) : bool :=
+  if fst r =? snd r
+  then ((ls <=? fst r) && (fst r <? le)) || ((fst r =? le) && negb (terminated l))
+  else overlaps r (ls, le).
+
+(* core._ignore_comment_linenos (repair 776bcb9): the zero-based numbers of the physical lines that carry
+   a COMMENT token matching the regex; None when CPython's tokenize raises (then every line whose text
+   matches counts).  The tokenizer is NOT modelled: its verdict is an input of the model, supplied by
+   CPython in the correspondence (same convention as IgnoreModel.comment_ok of property C20). *)
+Definition comment_ok (coms : option (list nat)) (i : nat) : bool :=
+  match coms with None => true | Some cs => existsb (Nat.eqb i) cs end.
+
+(* the loop of has_ignore_comment over enumerate(split_lines(source)); i = lineno, start = character_count *)
+Fixpoint has_ignore_from (coms : option (list nat)) (i : nat) (start : Z) (ls : list text) (r : range) : bool :=
   match ls with
   | [] => false
   | l :: tl =>
       let e := start + len l in
-      (overlaps r (start, e) && has_ignore_pattern l) || has_ignore_from e tl r
+      (touches_line r start e l && has_ignore_pattern l && comment_ok coms i)
+      || has_ignore_from coms (S i) e tl r
   end.
 
-Definition has_ignore_comment (s : text) (r : range) : bool := has_ignore_from 0 (str_lines s) r.
+(* core.split_lines = _PHYSICAL_LINE_PATTERN.findall = tok_lines (repair a37c022: no longer str.splitlines) *)
+Definition has_ignore_comment (s : text) (coms : option (list nat)) (r : range) : bool :=
+  has_ignore_from coms 0 0 (tok_lines s) r.
+
+(* the recogniser before the repairs a37c022 / 8992e08 / 776bcb9 (kept for the pinned refutations):
+   str.splitlines lines, Range.overlaps only, the regex on the raw line *)
+Fixpoint has_ignore_from_v0 (start : Z) (ls : list text) (r : range) : bool :=
+  match ls with
+  | [] => false
+  | l :: tl =>
+      let e := start + len l in
+      (overlaps r (start, e) && has_ignore_pattern l) || has_ignore_from_v0 e tl r
+  end.
+Definition has_ignore_comment_v0 (s : text) (r : range) : bool := has_ignore_from_v0 0 (str_lines s) r.
 
 (* ------------------------------------------------------------------------------------------ *)
 (* Reference semantics (a definition; validated against CPython by the harness):
@@ -445,10 +479,13 @@ Definition api_case_ok (c : api_case) : bool :=
   && (length cli =? length spans)%nat
   && forallb (fun x => ocli_eqb (cli_fields s (fst x)) (snd x)) (combine spans cli).
 
-(* has_ignore_comment case *)
-Definition ign_case := (text * list (range * bool))%type.
+(* has_ignore_comment case: (source, tokenizer verdict, expected core.split_lines line lengths,
+   list of (range, expected has_ignore_comment)) *)
+Definition ign_case := (text * option (list nat) * list Z * list (range * bool))%type.
 Definition ign_case_ok (c : ign_case) : bool :=
-  forallb (fun x => Bool.eqb (has_ignore_comment (fst c) (fst x)) (snd x)) (snd c).
+  let '(s, coms, lens, rs) := c in
+  zeqb_list (map len (tok_lines s)) lens
+  && forallb (fun x => Bool.eqb (has_ignore_comment s coms (fst x)) (snd x)) rs.
 
 (* ------------------------------------------------------------------------------------------ *)
 (* Exhaustive small-scope enumeration done inside Coq: the model is evaluated on ALL strings of a
